@@ -14,8 +14,13 @@ ROOTS = [f'{GOT}._main', f'{DL}:DownloadChunkIterator.__next__', f'{DNS}.get_io_
 def bounded_checks(tier, seed):
     from pyvc.bounded import run_tool
     n, k = (6, 3) if tier == 'quick' else (7, 4)
-    return run_tool('C02', 'b3_deferqueue', 'b3_deferqueue.py', [n, k],
-                    f'object of {n} bytes, all histories of <= {k} deliveries (any offset/length)', 'failing_history')
+    from pyvc.bounded import merge
+    n2, k2 = (5, 3) if tier == 'quick' else (6, 4)
+    return merge(
+        run_tool('C02', 'b3_deferqueue', 'b3_deferqueue.py', [n, k],
+                 f'object of {n} bytes, all histories of <= {k} deliveries (any offset/length)', 'failing_history'),
+        run_tool('C02', 'b3_streamsink', 'b3_streamsink.py', [n2, k2],
+                 f'real stream output manager (immediate and queued writes), object of {n2} bytes, all histories of <= {k2} deliveries', 'failing_history'))
 
 
 MANIFEST = dict(
